@@ -1,8 +1,14 @@
 //! C12 end-to-end: `e2e route n=<nodes> dcs=<d> racks=<r> sh=<shards> mix=<0|1> nat=<0|1> msb=<m> vn=<vnodes> st=<S<rf>|N<rf>>
-//! pref=<0|dc number> seed=<s> keys=<k>`
+//! pref=<0|dc number> seed=<s> keys=<k> [rs=<node>:<shards>:<msb>,...]`
 //!
 //! A real Session on a mock cluster; `INSERT INTO ks.t (pk, v) VALUES (?, ?)` is prepared (the PREPARED response names
 //! `pk` as the partition key of `ks.t`) and executed with `keys` distinct random keys once all pools are full.
+//!
+//! `rs=`: after a first round of keys the listed nodes RESTART with new sharding parameters (the node drops all its
+//! connections, refuses connections for 20 ms, then reports the new (nr_shards, ignore_msb) - `shards` 0 = unsharded - in
+//! SUPPORTED on every new connection and assigns shards by source port under the new count); once the driver has
+//! re-filled its pools a second round of fresh keys is executed. The oracle below is evaluated with the parameters the
+//! node reported on the very connection a frame arrived on, i.e. the node's CURRENT ones.
 //!
 //! ORACLE (from the property statement, nothing of the driver involved): with T = Murmur3 token of the key bytes
 //! (harness reference implementation), R = replicas of T by the brute-force placement rules, for each key
@@ -19,6 +25,7 @@ use crate::mockcluster::*;
 use crate::mocknode::{Parsed, ShardMode};
 use crate::rng::Rng;
 use crate::{Ctx, Tier};
+use std::time::Duration;
 
 pub fn generate(rng: &mut Rng, tier: Tier, emit: &mut dyn FnMut(String)) {
     let n_cases = if tier == Tier::Quick { 36 } else { 360 };
@@ -58,6 +65,46 @@ pub fn generate(rng: &mut Rng, tier: Tier, emit: &mut dyn FnMut(String)) {
             fo,
             rng.below(1 << 32),
             keys
+        ));
+    }
+    // node restarts with new sharding parameters (`rs=`): same count / other ignore_msb, other count / same ignore_msb,
+    // both, sharded <-> unsharded
+    let n_restart = if tier == Tier::Quick { 16 } else { 160 };
+    for i in 0..n_restart {
+        let nodes = 1 + rng.below(3);
+        let sh = *rng.pick(&[0u64, 2, 3, 4, 4, 8]);
+        let msb = *rng.pick(&[0u64, 1, 12, 12]);
+        let other_msb = |rng: &mut Rng, m: u64| *rng.pick(&[0u64, 1, 5, 12, 20].iter().copied().filter(|x| *x != m).collect::<Vec<_>>());
+        let other_sh = |rng: &mut Rng, k: u64| *rng.pick(&[2u64, 3, 4, 5, 8].iter().copied().filter(|x| *x != k).collect::<Vec<_>>());
+        let mut evs = Vec::new();
+        let mut order: Vec<u64> = (0..nodes).collect();
+        rng.shuffle(&mut order);
+        let n_ev = 1 + rng.below(nodes);
+        for (j, node) in order.iter().take(n_ev as usize).enumerate() {
+            // the first event of the first cases walks through the kinds, the rest is random
+            let kind = if j == 0 { i as u64 % 4 } else { rng.below(4) };
+            let (nsh, nmsb) = if sh == 0 {
+                (other_sh(rng, 0), msb)
+            } else {
+                match kind {
+                    0 => (sh, other_msb(rng, msb)),
+                    1 => (other_sh(rng, sh), msb),
+                    2 => (other_sh(rng, sh), other_msb(rng, msb)),
+                    _ => (0, 0),
+                }
+            };
+            evs.push(format!("{}:{}:{}", node, nsh, nmsb));
+        }
+        emit(format!(
+            "e2e route n={} dcs=1 racks=1 sh={} mix=0 nat=0 msb={} vn={} st=S{} pref=0 fo=0 seed={} keys={} rs={}",
+            nodes,
+            sh,
+            msb,
+            *rng.pick(&[1u64, 4]),
+            1 + rng.below(nodes),
+            rng.below(1 << 32),
+            if tier == Tier::Quick { 12 } else { 20 },
+            evs.join(",")
         ));
     }
 }
@@ -108,7 +155,26 @@ pub fn run(words: &[&str], ctx: &mut Ctx) -> String {
         }
     }
     let nodes = topo.nodes.clone();
-    let keys = gen_keys(shape.seed, nkeys as usize);
+    // rs=<node>:<shards>:<msb>,...  (shards 0 = the node comes back unsharded)
+    let mut restarts: Vec<(usize, ShardMode)> = Vec::new();
+    match p.str("rs") {
+        None | Some("-") => {}
+        Some(spec) => {
+            for ev in spec.split(',') {
+                let f: Vec<Option<u64>> = ev.split(':').map(|x| x.parse().ok()).collect();
+                let [Some(node), Some(sh), Some(msb)] = f[..] else { return "bad-case".into() };
+                if node as usize >= nodes.len() || sh > 64 || msb > 63 {
+                    return "bad-case".into();
+                }
+                let mode = match (sh, nat) {
+                    (0, _) => ShardMode::None,
+                    (_, 0) => ShardMode::ByPort(sh as u16, msb as u8),
+                    _ => ShardMode::ByPortShifted(sh as u16, msb as u8),
+                };
+                restarts.push((node as usize, mode));
+            }
+        }
+    }
     let rt = runtime(1);
     rt.block_on(async {
         let cluster = MockCluster::start(topo, with_std_prepare(|_| vec![act_void()])).await;
@@ -134,18 +200,31 @@ pub fn run(words: &[&str], ctx: &mut Ctx) -> String {
             Ok(ps) => ps,
             Err(_) => return "e2e-skip prepare-failed".to_owned(),
         };
+        let mut failed = 0;
+        let mut at_replica = 0;
+        let mut at_shard = 0;
+        let mut unjudged = 0;
+        let mut total_keys = 0;
+        for phase in 0..=restarts.len().min(1) {
+            if phase == 1 {
+                // node restarts with new sharding parameters, one after another; then the driver gets time to reconnect
+                for (node, mode) in &restarts {
+                    cluster.restart_node_with(*node, *mode, Duration::from_millis(20)).await;
+                }
+                if !cluster.wait_pools_full(&session, Duration::from_secs(15)).await {
+                    return format!("e2e-skip pools-not-full-after-restart keys={} replica={} shard={}", total_keys, at_replica, at_shard);
+                }
+            }
+            let keys = gen_keys(shape.seed.wrapping_add(phase as u64 * 7919), nkeys as usize);
+            total_keys += keys.len();
         let start = cluster.mark("requests");
         let start_at = std::time::Instant::now();
-        let mut failed = 0;
         for (i, k) in keys.iter().enumerate() {
             if session.execute_unpaged(&ps, (k.clone(), i as i32)).await.is_err() {
                 failed += 1; // not what is judged here (the first frame of every request is)
             }
         }
         let frames: Vec<Req> = cluster.user_frames().into_iter().filter(|f| f.seq > start).collect();
-        let mut at_replica = 0;
-        let mut at_shard = 0;
-        let mut unjudged = 0;
         let conns = cluster.conns();
         for (i, k) in keys.iter().enumerate() {
             let mine: Vec<&Req> = frames
@@ -187,7 +266,9 @@ pub fn run(words: &[&str], ctx: &mut Ctx) -> String {
                 continue;
             }
             at_replica += 1;
-            if let ShardMode::ByPort(n, msb) | ShardMode::ByPortShifted(n, msb) = nodes[f.node].shards {
+            // the sharding parameters the node reported on the connection the frame arrived on (after a restart: the new
+            // ones - every connection of the old incarnation is gone)
+            if let Some((n, msb)) = f.sharding {
                 let s = shard_of(tok, n, msb);
                 if nat != 0 {
                     // the pools may be incomplete: the claim holds "whenever the pool has" a connection of that shard -
@@ -207,14 +288,15 @@ pub fn run(words: &[&str], ctx: &mut Ctx) -> String {
                 }
                 if f.shard != Some(s) {
                     ctx.fail(format!(
-                        "e2e route: key #{} (token {}) arrived at node {} on a connection of shard {:?}, the owning shard is {} of {}",
-                        i, tok, f.node, f.shard, s, n
+                        "e2e route: key #{} (token {}) arrived at node {} on a connection of shard {:?}, the owning shard is {} of {} (ignore_msb {}){}",
+                        i, tok, f.node, f.shard, s, n, msb, if phase == 1 { " - after the node restarted with new sharding parameters" } else { "" }
                     ));
                     continue;
                 }
             }
             at_shard += 1;
         }
-        format!("route keys={} replica={} shard={} noconn={} failed={}", keys.len(), at_replica, at_shard, unjudged, failed)
+        }
+        format!("route keys={} replica={} shard={} noconn={} failed={} restarts={}", total_keys, at_replica, at_shard, unjudged, failed, restarts.len())
     })
 }
